@@ -688,16 +688,24 @@ WIRE_FAMILIES = {
 @meta(bounds="a device stack holding one commandable object and a client stack; n WriteProperty requests for presentValue over "
              "the wire, each with priority from {absent, 1, 8, 16, 0, 17} (0 and 17 must be refused) and a value from the class's "
              "set or Null (relinquish) - in quick the earlier commands of a sequence are values at an absent or middle priority; "
-             "after every request presentValue and the whole priority array are read back with ReadProperty requests",
+             "after every request presentValue and the whole priority array are read back with ReadProperty requests; the "
+             "priority array is sixteen fresh slots handed to the constructor, or (default-array instances) the one the "
+             "library builds itself",
       outside="more than n commands per sequence; classes other than the four instantiated (the object level covers all 20)",
       stubs=["virtual clock (task._time)", "asyncore.loop -> clock advance", "task._Trigger -> wake flag", "fresh singletons per path"])
-def prio_wire(d, cls, n, full=False):
+def prio_wire(d, cls, n, full=False, own_array=True):
     w = _World()
     lan = _nl.FaultLAN([], world=w)
     server = _WireDevice(_nl.make_device("s", 20), lan)
     client = _nl.AppStack(_nl.make_device("c", 10), lan)
     fam = FAMILIES[FAMILY_OF[cls]]
-    obj = make(cls, fam, own_array=True)
+    if own_array:
+        obj = make(cls, fam, own_array=True)
+    else:
+        # the library's own default priority array (ArrayOf.fix_length copies a prototype sixteen times); nothing
+        # symbolic takes part in the construction, so it runs untraced
+        with d.untraced():
+            obj = make(cls, fam, own_array=False)
     server.add_object(obj)
     objid = obj.objectIdentifier
     atom, values = WIRE_FAMILIES[cls]
@@ -772,6 +780,8 @@ def instances(tier):
     q = tier == "quick"
     for cls in (['AnalogValueCmdObject', 'BinaryValueCmdObject'] if q else list(WIRE_FAMILIES)):
         out.append(Inst(prio_wire, dict(cls=cls, n=2, full=not q), budget=150 if q else 900, path_timeout=120))
+    out.append(Inst(prio_wire, dict(cls='AnalogValueCmdObject', n=2, full=not q, own_array=False), budget=300 if q else 900,
+                    path_timeout=120, label="AnalogValueCmdObject,default-array"))
     if not q:
         out.append(Inst(prio_wire, dict(cls='AnalogValueCmdObject', n=3, full=False), budget=900, path_timeout=120))
     return out
